@@ -76,6 +76,7 @@ type Teamserver struct {
 	Clients    sync.Map // map[string]*Client
 	Users      []Users
 	EventsList []packager.Package
+	EventsMtx  sync.Mutex // guards EventsList
 	Service    *service.Service
 	WebHooks   *webhook.WebHook
 	DB         *db.DB
